@@ -247,7 +247,7 @@ Proof.
     destruct kind as [|[|kind]]; [| |discriminate]; destruct o; try discriminate.
     + (* init *)
       destruct (zero_rule_ok c r); [|discriminate]. destruct (checked_mul r c); [|discriminate].
-      destruct ((n <=? cf_cap cf)%N && (S k <? N.to_nat n)); inversion Ef; subst; exact Hi.
+      destruct ((n <=? cf_cap cf)%N && (N.of_nat (S k) <? n)%N); inversion Ef; subst; exact Hi.
     + (* fill *)
       destruct (Nat.ltb_spec (S k) (length (data (h_td h)))); inversion Ef; subst; cbn [h_td].
       destruct Hi as [Hl Hz]. split; cbn [data num_rows num_cols]; [|exact Hz].
@@ -256,7 +256,7 @@ Proof.
     + destruct (zero_rule_ok c r); [|discriminate]. destruct (checked_mul c r); [|discriminate].
       destruct ((n =? N.of_nat (length d))%N && (k <? length d)); inversion Ef; subst; exact Hi.
     + destruct (zero_rule_ok c r); [|discriminate]. destruct (checked_mul c r); [|discriminate].
-      destruct ((n <=? cf_cap cf)%N && (k <? N.to_nat n)); inversion Ef; subst; exact Hi.
+      destruct ((n <=? cf_cap cf)%N && (N.of_nat k <? n)%N); inversion Ef; subst; exact Hi.
   - (* clone_from *)
     destruct (negb (zero_rule_ok c r)) eqn:Ez; [inversion H; subst; exact Hi|].
     apply Bool.negb_false_iff in Ez.
